@@ -173,6 +173,12 @@ func (s *Solver) checkText(tb *TB, p *Printer, wantModel bool, pre, post string)
 			key += ")"
 			for _, v := range m {
 				cr.Model[key] = v
+				// byte arrays modelled as uninterpreted functions: also report name[i]
+				if strings.Contains(t.Name, "@bytes") && len(t.Args) == 1 {
+					idx := tb.Eval(t.Args[0], cr.Model, memo)
+					base := t.Name[:strings.Index(t.Name, "@bytes")]
+					cr.Model[fmt.Sprintf("%s[%d]", base, idx)] = v
+				}
 			}
 		}
 	}
